@@ -54,9 +54,26 @@ pub fn judge(ctx: &mut Ctx, v: &Version, source: &str, loose: bool) {
     let w = json!({"source": source});
     // (printing is preceded by prints of another value into writers that fail: a Display impl
     //  must not carry anything over from one call to the next)
-    let other = { let mut o = v.clone(); o.major = o.major.wrapping_add(1) % 1000; o.build.clear(); o };
-    let printed = match guarded(|| crate::observe::print_after_failed_prints(&other, v)) {
-        Ok(p) => p,
+    //  `other` differs from v in build metadata only: equal for `==`, a different text
+    let other = {
+        let mut o = v.clone();
+        o.build = if v.build.is_empty() { vec![nodejs_semver::Identifier::AlphaNumeric("zz9".into())] } else { vec![] };
+        o
+    };
+    let printed = match guarded(|| {
+        let plain = v.to_string();
+        let after = crate::observe::print_after_failed_prints(&other, v);
+        let _ = other.to_string();
+        let third = v.to_string();
+        (plain, after, third)
+    }) {
+        Ok((plain, after, third)) => {
+            if plain != after || plain != third {
+                ctx.violation("display-depends-on-earlier-prints", w, format!("printed {:?}; after (failed) prints of a build-only variant {:?}; after a successful print of that variant {:?}", plain, after, third));
+                return;
+            }
+            plain
+        }
         Err(p) => {
             ctx.violation(&format!("panic/{}", p.site), w, p.message);
             return;
